@@ -195,6 +195,9 @@ pub enum Op {
     SendPark { slot: u16, script: Vec<PStep>, polls: u8 },
     /// await a parked send / consume future to completion
     AwaitParked { slot: u16 },
+    /// `from_registry()` of service type k is polled `polls` times and then dropped (a lookup under a timeout /
+    /// `select!` that gave up); always pushes one slot (the address if the lookup completed in time)
+    FromRegistryCancel { k: u8, polls: u8 },
     /// the handle in `slot` is dropped while the client's thread is unwinding from a panic (which the client catches)
     DropPanicking { slot: u16 },
     /// `owning.consume()` creates a lazy future that owns the OwningAddr; it is kept un-polled in a new slot
